@@ -118,8 +118,10 @@ def generate(rng, i, tier):
         # systematic part: cell i of the enumerated fault space (kind x package size x per-instruction outcome
         # assignment x transport fault kind x number of faulted attempts x completion between request and response)
         return livegen.gen_c12_systematic(rng, i)
-    if x < 0.65:
+    if x < 0.57:
         return livegen.gen_live(rng, "C12")
+    if x < 0.65:
+        return livegen.gen_c12_async_retry(rng)
     sc = lifecycle_common.scenario(rng, "C12")
     sc["world"] = "A"
     return sc
